@@ -150,6 +150,12 @@ func makeFaultProgram(c *vf.Ctx, seed int64, cfg *pgen.Config, vdr string, tweak
 	for attempt := 0; attempt < 30; attempt++ {
 		s := seed + int64(attempt)*7919
 		cfg.SrcFor = vrun.ProbeSrc(c.BuildDir)
+		if cfg.PyStagePct > 0 {
+			pct := cfg.PyStagePct
+			cfg.SrcFor = vrun.PyProbeSrc(c.BuildDir, func(stage string) bool {
+				return pgen.NewHashRng("py", fmt.Sprint(s), stage).Intn(100) < pct
+			})
+		}
 		var p *pgen.Program
 		if template > 0 {
 			p = pgen.Template(template-1, s, cfg)
@@ -647,6 +653,20 @@ type failSpec struct {
 var failKinds = []string{"errpipe", "assert", "exit", "exit_after_outs", "segv", "kill9", "kill_mrjob",
 	"trunc_outs", "no_outs", "missing_key", "wrong_type", "errpipe_exit0", "bad_stage_defs"}
 
+// kindFor: output-file manifestations do not exist for a Python stage (the
+// adapter writes _outs / _stage_defs); such a job gets a Python failure instead.
+func kindFor(fp *faultProgram, job, kind string, k int) string {
+	if st := fp.prog.Stage(fp.jobStage[job]); st != nil && st.SrcLang == "py" {
+		switch kind {
+		case "trunc_outs", "no_outs", "null_outs", "missing_key", "wrong_type", "bad_stage_defs", "exit_after_outs":
+			return pyFailKinds[k%len(pyFailKinds)]
+		}
+	}
+	return kind
+}
+
+var pyFailKinds = []string{"py_raise", "py_exit", "py_throw", "py_sysexit", "py_osexit", "py_kill"}
+
 type failOutcome struct {
 	violations   []string
 	inconclusive string
@@ -793,7 +813,11 @@ func runFailCase(c *vf.Ctx, fp *faultProgram, idx int, fs failSpec) *failOutcome
 		}
 	}
 	if !oc.faultFired {
-		oc.inconclusive = "fault site not reached"
+		lang := "comp"
+		if st := fp.prog.Stage(fp.jobStage[fs.Job]); st != nil {
+			lang = st.SrcLang
+		}
+		oc.inconclusive = "fault site not reached: " + fs.Fail + " in a " + lang + " stage (" + fp.jobPhase[fs.Job] + ")"
 		return oc
 	}
 	forkKey := fs.Job[:strings.LastIndexByte(fs.Job, '/')]
@@ -934,6 +958,9 @@ func init() {
 		for pi := 0; pi < nProg; pi++ {
 			cfg := faultConfig()
 			cfg.PDisabled = 10
+			if pi%2 == 1 {
+				cfg.PyStagePct = 60 // stages run through the real Python adapter
+			}
 			tmpl := 0
 			if pi%3 == 2 {
 				tmpl = 1 + (pi/3)%pgen.NTemplates
@@ -954,7 +981,7 @@ func init() {
 				c.Count("programs_exhaustive_over_sites_and_manifestations", 1)
 				for _, j := range fp.jobs {
 					for _, k := range failKinds {
-						jobs = append(jobs, job{fp, idx, failSpec{Job: j, Fail: k, Repeated: true}})
+						jobs = append(jobs, job{fp, idx, failSpec{Job: j, Fail: kindFor(fp, j, k, idx), Repeated: true}})
 						idx++
 					}
 				}
@@ -977,9 +1004,25 @@ func init() {
 					if len(multi) > 0 && k%2 == 1 {
 						j = multi[rng.Intn(len(multi))]
 					}
-					kind := failKinds[(k+pi)%len(failKinds)]
+					kind := kindFor(fp, j, failKinds[(k+pi)%len(failKinds)], k)
 					fs := failSpec{Job: j, Fail: kind, Repeated: k%3 != 0}
 					if k%5 == 4 {
+						fs.AutoRetry = 2
+					}
+					jobs = append(jobs, job{fp, idx, fs})
+					idx++
+				}
+				// failures only a Python stage can have (exception, martian.exit,
+				// martian.throw, sys.exit, os._exit, killed interpreter)
+				var pyJobs []string
+				for _, j := range fp.jobs {
+					if st := fp.prog.Stage(fp.jobStage[j]); st != nil && st.SrcLang == "py" {
+						pyJobs = append(pyJobs, j)
+					}
+				}
+				for k := 0; k < c.Pick(8, 24) && len(pyJobs) > 0; k++ {
+					fs := failSpec{Job: pyJobs[rng.Intn(len(pyJobs))], Fail: pyFailKinds[(k+pi)%len(pyFailKinds)], Repeated: k%2 == 0}
+					if k%4 == 3 {
 						fs.AutoRetry = 2
 					}
 					jobs = append(jobs, job{fp, idx, fs})
